@@ -141,7 +141,9 @@ def burst_sessions(rng, n):
         opened = ["main.td"]
         for _ in range(rng.randrange(3, 30)):
             r = rng.random()
-            if r < 0.35:
+            if r < 0.05:
+                steps.append({"change_empty": rng.choice(opened)})
+            elif r < 0.35:
                 steps.append({"change": rng.choice(opened), "text": rng.choice(texts)})
             elif r < 0.45:
                 p = rng.choice(["main.td", "sub.td", "other.td"])
@@ -184,6 +186,41 @@ def concurrency_limit_probe(bindir):
     return sc, sl.run_session(bindir, sc, preexec_fn=pin), n, limit, how
 
 
+def empty_change_sessions():
+    """a didChange WITHOUT content (contentChanges: [], schema-legal) between a request and a real edit: nothing to do for
+    the server, which must go on serving"""
+    out = []
+    for mode in ("burst", "settled"):
+        for kind in ("hover", "definition", "documentSymbol"):
+            steps = [{"open": "main.td", "text": MAIN1}, {"wait_idle": True}, req_step(kind), {"change_empty": "main.td"},
+                     {"change": "main.td", "text": MAIN2}, req_step("hover"), {"change_empty": "main.td"}, req_step("references"),
+                     {"wait_idle": True}]
+            sc = base_script(steps, [])
+            sc["mode"] = mode
+            out.append({"name": "didChange without content between a %s request and an edit (%s)" % (kind, mode), "critical": True,
+                        "script": sc})
+    return out
+
+
+BIG = "".join("class K%d;\n" % i for i in range(2000))
+
+
+def crowd_sessions(rounds):
+    """a LARGE document; every round: an edit immediately followed by as many requests as may be in flight (all of them
+    wait for the same index computation and finish together, next to the diagnostics task of the edit)"""
+    n = min(7, sl.MAX_IN_FLIGHT)
+    steps = [{"open": "big.td", "text": BIG + "def d : K0;\n"}, {"wait_idle": True}]
+    for r in range(rounds):
+        steps.append({"change": "big.td", "text": BIG + "def d : K%d;\ndef e%d : K%d;\n" % (r, r, r + 1)})
+        for k in range(n):
+            steps.append({"request": ["hover", "definition", "references"][k % 3], "path": "big.td", "line": 5 + k, "character": 7})
+        steps.append({"wait_idle": True})
+    sc = base_script(steps, [], watchdog=8000)
+    sc["files_on_disk"] = []
+    return [{"name": "crowd: %d rounds of an edit of a 2000-class document followed by %d requests" % (rounds, n), "critical": True,
+             "script": sc}]
+
+
 def effective(out):
     """a hold did what it was meant to do: the parked thread was released by the awaited event"""
     return any(e.get("ev") == "released" and e.get("by") == "event" for e in out.get("log", []))
@@ -203,11 +240,11 @@ def run(ctx):
         crit = [s for s in one + dg if s["critical"]]
         rest = [s for s in one + dg if not s["critical"]]
         rng.shuffle(rest)
-        controlled = crit + rest[:150] + two_task_schedules(rng, 40)
-        bursts = burst_sessions(rng, 24)
+        controlled = crit + rest[:150] + two_task_schedules(rng, 40) + empty_change_sessions()
+        bursts = burst_sessions(rng, 24) + crowd_sessions(10) + crowd_sessions(10)
     else:
-        controlled = one + dg + two_task_schedules(rng, 400)
-        bursts = burst_sessions(rng, 150)
+        controlled = one + dg + two_task_schedules(rng, 400) + empty_change_sessions()
+        bursts = burst_sessions(rng, 150) + [c for _ in range(6) for c in crowd_sessions(25)]
 
     # the hooks-off binary (production configuration) is built only when the hooks-on sessions found nothing
     sessions = [("controlled", s, bindir) for s in controlled] + [("burst", s, bindir) for s in bursts] + \
